@@ -15,6 +15,7 @@ EXPLANATION = (
     "ceiling division, sends `tick - base` and the receiver reconstructs `tick.wrapping_sub(wire)` in all three "
     "message forms.  R3b: snap refuses exactly num_parts < 0, num_parts > 32, part < 0 and part >= num_parts.  R1b: can_receive consults the transfer in progress before the last completed tick.  Not decided: exactly-once delivery over all permutations (schedule level)."
 )
+EXPLANATION += ('  Round 4: R3 -- every path to `self.current = Some(CurrentDelta{..})` passes init_delta() (a restarted transfer starts from empty part bookkeeping); R4 -- each of the three message forms built by DeltaChunks::next carries self.tick and self.delta_tick verbatim.')
 ASSUMPTIONS = ["VecMap::values iterates in key order (vec_map documentation)"]
 
 R = "libtw2_snapshot::receiver::DeltaReceiver::"
